@@ -12,6 +12,7 @@ import KojenVerif.Model.PyQueue
 import KojenVerif.Model.Conc
 import KojenVerif.Model.Engine
 import KojenVerif.Model.EngineSpec
+import KojenVerif.Model.Vpp
 import KojenVerif.Lemmas.EngineWF
 /-
   Line-protocol driver: one JSON object per input line, one JSON object per output line.
@@ -638,6 +639,26 @@ def handle (j : Json) : Except String Json := do
     let n (x : Nat) := Json.num (JsonNumber.fromNat x)
     pure (Json.mkObj [("user_items", n uItems), ("user_items_ok", n uOk), ("blocks", n blocks), ("blocks_ok", n blocksOk),
                       ("chunks", n chunks), ("chunks_ok", n chunksOk)])
+  | "vpp" => do
+    let rows3 (k : String) : Except String (List (List Str)) := do
+      (← (← j.getObjVal? k).getArr?).toList.mapM asStrs
+    let ds ← rows3 "diagrams"
+    let es ← rows3 "elems"
+    let ms ← rows3 "models"
+    let p : Vpp.Project :=
+      { diagrams := ds.filterMap (fun r => match r with | [a, b, c] => some ⟨a, b, c⟩ | _ => none),
+        elems := es.filterMap (fun r => match r with | [a, b, c] => some ⟨a, b, c⟩ | _ => none),
+        models := ms.filterMap (fun r => match r with | [a, b, c, d] => some ⟨a, b, c, d⟩ | _ => none) }
+    match Vpp.extract p (← getStr j "name") with
+    | some rows => pure (Json.mkObj [("ok", Json.bool true), ("rows", Json.arr (rows.map jStrs).toArray)])
+    | none => pure (Json.mkObj [("ok", Json.bool false)])
+  | "vppfn" => do
+    match (← (← j.getObjVal? "fn").getStr?) with
+    | "parseTransition" =>
+      let r := Vpp.parseTransition (← getStr j "blob")
+      pure (Json.mkObj [("r", Json.arr #[jOpt r.to_, jOpt r.from_, jOpt r.guard, jOpt r.effect])])
+    | "parseGuardName" => pure (Json.mkObj [("r", jOpt (Vpp.parseGuardName (← getStr j "blob")))])
+    | o => throw s!"vppfn {o}"
   | "runref" => do
     let t ← parseRows (← j.getObjVal? "tt")
     let silent ← getBool j "silent"
